@@ -24,7 +24,7 @@ def _doc(text: str) -> mmg.Doc:
     return mmg.Doc(summary=text)
 
 
-def probe_metamodel() -> mmg.MetaModel:
+def probe_metamodel(invariants: Optional[Sequence[mmg.Invariant]] = None) -> mmg.MetaModel:
     """One class whose invariants use each comparator on ints (literal and property
     operands), floats, strings, booleans and enumeration literals, each connective,
     both quantifiers over both generators, ``len``, ``in`` and a pattern function."""
@@ -96,6 +96,54 @@ def probe_metamodel() -> mmg.MetaModel:
             All(ForEach("item", P("oitems")), Cmp("==", Member(Name("item"), "label"), Const("abc"))))))
     # arithmetic
     inv("a + 1 shall be > b - 1", Cmp(">", Add(P("a"), Const(1)), Sub(P("b"), Const(1))))
+    # ---- every operator pair whose relative precedence / associativity matters ----
+    a, b, k, p_, q_ = P("a"), P("b"), P("k"), P("p"), P("q")
+    inv("a - (b - k) shall be 0", Cmp("==", Sub(a, Sub(b, k)), Const(0)))
+    inv("a - (b + k) shall be < 3", Cmp("<", Sub(a, Add(b, k)), Const(3)))
+    inv("(a - b) - k shall be >= 0", Cmp(">=", Sub(Sub(a, b), k), Const(0)))
+    inv("a + (b - k) shall not be 1", Cmp("!=", Add(a, Sub(b, k)), Const(1)))
+    inv("(a + b) + k shall be > 2", Cmp(">", Add(Add(a, b), k), Const(2)))
+    inv("a + (b + k) shall be <= 2000", Cmp("<=", Add(a, Add(b, k)), Const(2000)))
+    inv("a - (b - (k - 1)) shall be > 0", Cmp(">", Sub(a, Sub(b, Sub(k, Const(1)))), Const(0)))
+    inv("(a - (b + 1)) - (k - a) shall be < 9", Cmp("<", Sub(Sub(a, Add(b, Const(1))), Sub(k, a)), Const(9)))
+    inv("a - b shall be < k - 1", Cmp("<", Sub(a, b), Sub(k, Const(1))))
+    inv("3 - a shall be >= b - (k + 2)", Cmp(">=", Sub(Const(3), a), Sub(b, Add(k, Const(2)))))
+    inv("length of s plus 1 shall be > length of t minus 1",
+        Cmp(">", Add(Call("len", (P("s"),)), Const(1)), Sub(Call("len", (P("t"),)), Const(1))))
+    inv("not a < b", Not(Cmp("<", a, b)))
+    inv("not a >= 10", Not(Cmp(">=", a, Const(10))))
+    inv("not s is abc", Not(Cmp("==", P("s"), Const("abc"))))
+    inv("not not p", Not(Not(p_)))
+    inv("not (a - k < b)", Not(Cmp("<", Sub(a, k), b)))
+    inv("not a in Probe_numbers", Not(IsIn(a, Name("Probe_numbers"))))
+    inv("os unset or not os in Probe_words", Or((IsNone(P("os")), Not(IsIn(P("os"), Name("Probe_words"))))))
+    inv("not oa unset", Not(IsNone(P("oa"))))
+    inv("not oa set", Not(IsNotNone(P("oa"))))
+    inv("not t matches", Not(Call("matches_probe_word", (P("t"),))))
+    inv("not all items light", Not(All(ForEach("item", P("items")), Cmp("<", Member(Name("item"), "weight"), Const(5)))))
+    inv("not some item flagged or p", Or((Not(AnyOf(ForEach("item", P("items")), Member(Name("item"), "flag"))), p_)))
+    inv("p implies (q implies a < 5)", Implies(p_, Implies(q_, Cmp("<", a, Const(5)))))
+    inv("(p implies q) implies a < 5", Implies(Implies(p_, q_), Cmp("<", a, Const(5))))
+    inv("p and q implies a < 5 or b < 5", Implies(And((p_, q_)), Or((Cmp("<", a, Const(5)), Cmp("<", b, Const(5))))))
+    inv("p or q implies a < 5 and b < 5", Implies(Or((p_, q_)), And((Cmp("<", a, Const(5)), Cmp("<", b, Const(5))))))
+    inv("not p implies not q", Implies(Not(p_), Not(q_)))
+    inv("not (p implies q)", Not(Implies(p_, q_)))
+    inv("p and (q or a < 3)", And((p_, Or((q_, Cmp("<", a, Const(3)))))))
+    inv("p or (q and a < 3)", Or((p_, And((q_, Cmp("<", a, Const(3)))))))
+    inv("(p or q) and (not p or a > 0)", And((Or((p_, q_)), Or((Not(p_), Cmp(">", a, Const(0)))))))
+    inv("(p and q) or (not p and not q)", Or((And((p_, q_)), And((Not(p_), Not(q_))))))
+    inv("not (p or (q and a < 3))", Not(Or((p_, And((q_, Cmp("<", a, Const(3))))))))
+    inv("(p and q) and (a < 3 and b < 3)", And((And((p_, q_)), And((Cmp("<", a, Const(3)), Cmp("<", b, Const(3)))))))
+    inv("p or (q or (a < 3 and b < 3))", Or((p_, Or((q_, And((Cmp("<", a, Const(3)), Cmp("<", b, Const(3)))))))))
+    inv("(p implies q) and (q implies p)", And((Implies(p_, q_), Implies(q_, p_))))
+    inv("(p implies q) or a < 3", Or((Implies(p_, q_), Cmp("<", a, Const(3)))))
+    inv("all items: flag implies weight - 1 < a - (b - k)",
+        All(ForEach("item", P("items")),
+            Implies(Member(Name("item"), "flag"),
+                    Cmp("<", Sub(Member(Name("item"), "weight"), Const(1)), Sub(a, Sub(b, k))))))
+    inv("last item by index light",
+        Or((Cmp("<", Call("len", (P("items"),)), Const(1)),
+            Cmp("<", Member(Index(P("items"), Sub(Call("len", (P("items"),)), Const(1))), "weight"), Const(5)))))
 
     color = mmg.Enumeration("Probe_color", [
         mmg.EnumLiteral("Red", "RED"), mmg.EnumLiteral("Green", "green"),
@@ -113,14 +161,14 @@ def probe_metamodel() -> mmg.MetaModel:
         mmg.Property("flag", TPrim("bool"), _doc("Hold the flag.")),
     ], [mmg.Invariant("Constraint 800: weight shall be <= 100", Cmp("<=", Member(S, "weight"), Const(100)), "custom", {})],
         doc=_doc("Represent a probe item."))
-    props = [("a", TPrim("int")), ("b", TPrim("int")), ("s", TPrim("str")), ("t", TPrim("str")),
+    props = [("a", TPrim("int")), ("b", TPrim("int")), ("k", TPrim("int")), ("s", TPrim("str")), ("t", TPrim("str")),
              ("p", TPrim("bool")), ("q", TPrim("bool")), ("x", TPrim("float")), ("y", TPrim("float")),
              ("c", TOur("Probe_color")), ("d", TOur("Probe_color")),
              ("items", TList(TOur("Probe_item"))), ("short_text", TOur("Probe_short_text")),
              ("oa", TOpt(TPrim("int"))), ("os", TOpt(TPrim("str"))), ("oc", TOpt(TOur("Probe_color"))),
              ("oitems", TOpt(TList(TOur("Probe_item"))))]
     probe = mmg.Class("Probe", False, [], [mmg.Property(n, t, _doc(f"Hold the {n}.")) for n, t in props],
-                      invs, doc=_doc("Represent the probe."))
+                      invs if invariants is None else list(invariants), doc=_doc("Represent the probe."))
     fn = mmg.VerificationFunction("matches_probe_word", "pattern", [("text", TPrim("str"))],
                                   pattern="^[a-z]+(-[a-z0-9]+)*$", pattern_style=0,
                                   doc=_doc("Check that the text is a probe word."))
@@ -140,6 +188,111 @@ def probe_metamodel() -> mmg.MetaModel:
                        decl_order=["Probe_color", "Probe_short_text", "Probe_item", "Probe"],
                        quote_our_types=True, profile="probe")
     return mm
+
+
+# ----------------------------------------------------------------------------------------
+# Random, well-typed expressions over the probe class: every operator nested in every other
+# ----------------------------------------------------------------------------------------
+class _ExprGen:
+    def __init__(self, rng: random.Random):
+        self.rng = rng
+        self.S = Name("self")
+        self.used_optionals = set()
+
+    def P(self, n):
+        return Member(self.S, n)
+
+    def int_(self, d: int):
+        r = self.rng
+        if d <= 0 or r.random() < 0.3:
+            c = r.random()
+            if c < 0.6:
+                return self.P(r.choice(["a", "b", "k"]))
+            if c < 0.9:
+                return Const(r.choice([0, 1, 2, 3, 5, 10, 1000]))
+            return Call("len", (self.P(r.choice(["s", "t", "items"])),))
+        op = r.choice([Add, Sub, Sub])
+        l, rr = self.int_(d - 1), self.int_(d - 1)
+        if isinstance(l, Call) and isinstance(rr, (Member,)):
+            rr = Const(1)  # a length is only mixed with literals
+        if isinstance(rr, Call) and isinstance(l, (Member,)):
+            l = Const(1)
+        return op(l, rr)
+
+    def _no_len_mix(self, e) -> bool:
+        """lengths may only be combined with literals (the type of len is not int)."""
+        has_len = any(isinstance(x, Call) and x.name == "len" for x in mmg.walk_expr(e))
+        has_prop = any(isinstance(x, Member) and x.name in ("a", "b", "k") for x in mmg.walk_expr(e))
+        return not (has_len and has_prop)
+
+    def bool_(self, d: int):
+        r = self.rng
+        if d <= 0 or r.random() < 0.15:
+            c = r.random()
+            if c < 0.45:
+                return self.P(r.choice(["p", "q"]))
+            if c < 0.55:
+                return IsIn(self.P(r.choice(["a", "b", "k"])), Name("Probe_numbers"))
+            if c < 0.62:
+                # one nullness test per optional property and invariant (a second test on
+                # an already narrowed value is a type error of the front end)
+                free = [n for n in ("oa", "os", "oc", "oitems") if n not in self.used_optionals]
+                if not free:
+                    return self.P(r.choice(["p", "q"]))
+                n = r.choice(free)
+                self.used_optionals.add(n)
+                return r.choice([IsNone, IsNotNone])(self.P(n))
+            if c < 0.68:
+                return Call("matches_probe_word", (self.P(r.choice(["s", "t"])),))
+            return self.cmp(1)
+        c = r.random()
+        if c < 0.2:
+            return self.cmp(d - 1)
+        if c < 0.38:
+            return Not(self.bool_(d - 1))
+        if c < 0.58:
+            return And(tuple(self.bool_(d - 1) for _ in range(r.choice([2, 2, 3]))))
+        if c < 0.78:
+            return Or(tuple(self.bool_(d - 1) for _ in range(r.choice([2, 2, 3]))))
+        return Implies(self.bool_(d - 1), self.bool_(d - 1))
+
+    def cmp(self, d: int):
+        for _ in range(20):
+            e = Cmp(self.rng.choice(mmg.CMP_OPS), self.int_(d), self.int_(d))
+            if self._no_len_mix(e) and not (isinstance(e.left, Const) and isinstance(e.right, Const)):
+                return e
+        return Cmp("<", self.P("a"), self.P("b"))
+
+
+def precedence_metamodel(rng: random.Random, n: int = 40) -> mmg.MetaModel:
+    """The probe class with ``n`` random invariants (depth <= 4) instead of the fixed ones."""
+    g = _ExprGen(rng)
+    invs = []
+    seen = set()
+    while len(invs) < n:
+        g.used_optionals = set()
+        body = g.bool_(rng.choice([2, 3, 3, 4]))
+        text = mmg.render_expr(body)
+        if text in seen or isinstance(body, (Member, Const)):
+            continue
+        seen.add(text)
+        invs.append(mmg.Invariant(f"Constraint {len(invs) + 1}: random expression {len(invs) + 1}", body, "custom", {}))
+    mm = probe_metamodel(invs)
+    mm.profile = "probe-precedence"
+    return mm
+
+
+def noenum_metamodel() -> mmg.MetaModel:
+    """A minimal meta-model without any enumeration (corpus: the Java SDK of such a model
+    imports the never generated package ``types.enums``)."""
+    S = Name("self")
+    plain = mmg.Class("Plain_thing", False, [], [mmg.Property("label", TPrim("str"), _doc("Hold the label."))],
+                      [mmg.Invariant("Constraint 1: label shall have at least 1 character(s)",
+                                     Cmp(">=", Call("len", (Member(S, "label"),)), Const(1)), "custom", {})],
+                      doc=_doc("Represent a plain thing."))
+    return mmg.MetaModel(doc=_doc("Provide a meta-model without enumerations."), version="V0.1",
+                         xml_namespace="https://example.com/noenum", classes=[plain],
+                         decl_order=["Plain_thing"], quote_our_types=True, profile="noenum")
 
 
 def all_invariants(mm: mmg.MetaModel) -> List[Tuple[str, mmg.Invariant]]:
